@@ -126,7 +126,7 @@ func Props(c *Ctx) map[string]*Prop {
 	add(&Prop{ID: "C13",
 		Explanation: "Decides the operator × state × nounset × special table of parameter expansion completely: for each of the 624 consistent valuations the outcome of every path of expandParam (value, word expanded, assignment, pattern removal, length, error kind) is extracted from the control-flow graph and compared with POSIX's table, including 'the word is expanded only when it is used' and 'assignment only under = / :=' (DT1); ${#p} counts runes (BR2); operator and special-parameter sets agree across packages (TB8, TB10, TB13); Set discipline (PU6/PU7); no panic (PF1). Field generation for $@ / $*, quoting of results and IFS joins are value-level and not decided.",
 		Assumptions: []string{"POSIX XCU 2.6.2 table frozen in the checker as oracle", "go.sh's documented Arith mode passes plain names through"},
-		Rules: []Rule{ruleBR7(), ruleSP4(), ruleBR5(), ruleQU1c(), ruleQU4(), ruleQU3b(), ruleOP1(), ruleAR6(), ruleDT1(), ruleBR2(), rulePU4(), ruleNG1("interp"), rulePP1(), ruleTB8(), ruleTB10(), ruleTB13(), rulePU6(), ruleFLD1(), ruleFLD2(), rulePF5(), ruleEF7(), ruleYY1("interp"), rulePF2(), ruleTB2(), ruleSP(),
+		Rules: []Rule{ruleSP5(), ruleBR7(), ruleSP4(), ruleBR5(), ruleQU1c(), ruleQU4(), ruleQU3b(), ruleOP1(), ruleAR6(), ruleDT1(), ruleBR2(), rulePU4(), ruleNG1("interp"), rulePP1(), ruleTB8(), ruleTB10(), ruleTB13(), rulePU6(), ruleFLD1(), ruleFLD2(), rulePF5(), ruleEF7(), ruleYY1("interp"), rulePF2(), ruleTB2(), ruleSP(),
 			pf1Rule("no index/slice/assertion in the expansion functions can panic", 20,
 				func(c *Ctx) (map[*core.Func]bool, map[*core.Func]bool) {
 					return c.scopeOf("interp.(*ExecEnv).Expand"), nil
@@ -169,7 +169,7 @@ func Props(c *Ctx) map[string]*Prop {
 		Rules:       []Rule{ruleCM7(), ruleUR1(), ruleW1(), ruleLB3(), ruleTL1(), ruleHD9(), ruleRC4(), ruleRC6(), ruleLB1(), ruleLBK(), ruleLX("CM2"), ruleCM3(), ruleTK("TK2")}})
 	add(&Prop{ID: "C14",
 		Explanation: "Decides side conditions of field splitting: quoted segments bypass the cutter, are joined as quoted and keep a field alive (SP1), unset IFS means space-tab-newline (SP2), cut offsets advance by the rune's encoded width (BR3), the two parallel slices of a field stay in step (FLD2), no panic in split (PF1). The cutter's state machine itself is value-level and not decided.",
-		Rules: []Rule{ruleBR7(), ruleBR5(), ruleQU1c(), ruleQU3b(), ruleFE1(), ruleSP(), ruleFLD2(), rulePU4(), ruleNG1("interp"),
+		Rules: []Rule{ruleSP5(), ruleBR7(), ruleBR5(), ruleQU1c(), ruleQU3b(), ruleFE1(), ruleSP(), ruleFLD2(), rulePU4(), ruleNG1("interp"),
 			pf1Rule("no index/slice in split can panic", 3,
 				func(c *Ctx) (map[*core.Func]bool, map[*core.Func]bool) {
 					return c.scopeOf("interp.(*ExecEnv).split"), nil
